@@ -40,8 +40,11 @@ REQUIRED_TAGS = ['model-exact-map=exact-same', 'model-exact-lower=exact-same', '
 ASSUMPTIONS = ['proof level: full for clamped non-periodic continuous bases — one direction (C05_knots, C05_geometry_clamped_full, '
                'C05_lower_left_inverse_clamped), surfaces (C05_geometry_clamped_surface, C05_lower_left_inverse_clamped_surface) and '
                'volumes (C05_geometry_clamped_volume, C05_lower_left_inverse_clamped_volume): degree-elevation inclusion and Schoenberg-Whitney are proved; '
-               'periodic bases: knot bookkeeping incl. ghost trimming proved (C05_knots_periodic), geometry partial (named '
-               'hypotheses H_incl/H_sw, exercised exactly by the model run)',
+               'periodic bases: knot bookkeeping incl. ghost trimming proved (C05_knots_periodic), degree-elevation inclusion proved '
+               '(C05_elevation_periodic); geometry of periodic curves and of periodic directions of surfaces/volumes proved relative to the '
+               'named hypothesis H_sw (certified inverse of the folded periodic Greville collocation matrix exists; exercised exactly by the '
+               'model run) and admissible Greville points (C05_geometry_periodic_partial, C05_periodic_direction_partial, '
+               'C05_geometry_periodic_surface_partial); order-1 single-span objects raised by a>=1: C05_geometry_order1',
                'np.linalg.inv / scipy spsolve are modelled by exact inverses (certificate-checked in the model); their '
                'rounding error is bounded by RTOL times the measured condition number of the collocation matrix']
 
